@@ -33,6 +33,7 @@ def run(ctx):
     c09_shapes(ctx)
     c09_3(ctx)
     c09_4(ctx)
+    c09_5(ctx)
 
 
 def _coin_aggs(b):
@@ -314,3 +315,60 @@ def c09_4(ctx):
                "%s subtracts only CLVM execution costs returned by run_program from its budget" % suffix.split("::")[-1],
                found=bad[:3] or None, where=fs[0].sp)
     ctx.floor(R, "subtract_cost sites in the trusted fast paths", n, 2)
+
+
+def c09_5(ctx):
+    """which conditions the fast scans treat as CREATE_COIN, and what they do with everything else, mirrors full validation
+    in consensus mode (parse_opcode: a CREATE_COIN is the atom whose bytes are exactly [51]; any other opcode atom -- including
+    zero-padded encodings of 51 such as 00 33 -- and, for the block scan, a pair in opcode position, is an unknown condition and
+    is skipped without error):
+      additions_and_removals : the Coin is built only under `atom(first(c)) == [51]` as a byte-string comparison, and a failing
+                               atom() (pair opcode) returns to the loop, never to an error exit
+      SpendBundle::additions : the Coin is built only under `len(atom(op)) == 1` and `atom(op)[0] == 51` (no integer decoding
+                               of the opcode, which would accept redundant leading zeros)"""
+    R = "C09.5"
+    fb = ctx.fb
+    f = _fn(fb, CC + "additions_and_removals::additions_and_removals")
+    if f:
+        b = Body(f, fb)
+        coins = [bi for bi, c in _coin_aggs(b) if not U.has_call(c["puzzle_hash"], "tree_hash_cached")]
+        ok = len(coins) == 1
+        detail = None
+        if ok:
+            conds = [(str(apnf.N(t)), l) for t, l in b.dominating_conditions(coins[0])]
+            op = "('atom', ('make_allocator', 'flags'), ('first', ('make_allocator', 'flags'), 'var:c'), "
+            isatom = [c for c in conds if c[0].startswith(op) and c[1] == ("is", ("Ok",))]
+            eq51 = [c for c in conds if c[0].startswith("('ne', " + op) and c[0].endswith("b'3')") and c[1] == ("bool", False)] + \
+                   [c for c in conds if c[0].startswith("('eq', " + op) and c[0].endswith("b'3')") and c[1] == ("bool", True)]
+            ok = len(isatom) == 1 and len(eq51) == 1
+            detail = [c[0][:100] + " " + str(c[1]) for c in conds if "atom" in c[0][:12] or c[0][:5] in ("('ne'", "('eq'")]
+        ctx.ob(R, "create-coin-test:additions_and_removals", ok,
+               "a condition is a CREATE_COIN iff its opcode atom equals the byte string [51]", found=detail, where=f.sp)
+
+        def atom_err(t, lab):
+            return str(apnf.N(t)).startswith("('atom', ") and lab == ("is", ("Err",))
+        edges = U.edges_where(b, atom_err)
+        exits = b.return_blocks()
+        heads = [bi for bi, n, t in b.calls() if U.flat(n).endswith("validation_error::next") and b.in_cycle(bi)]
+        ok = bool(edges) and bool(heads) and all(not b.reachable_avoiding(e, exits, heads) for e in edges)
+        ctx.ob(R, "non-atom-opcode-skipped:additions_and_removals", ok,
+               "a condition whose opcode is not an atom is skipped (back to the condition loop), not turned into an error", where=f.sp)
+    f = fb.fns.get("chia_protocol::spend_bundle::SpendBundle::additions")
+    if f is None:
+        return ctx.missing(R, "create-coin-test:SpendBundle::additions", "not found")
+    b = Body(f, fb)
+    ctx.touched(b.path)
+    coins = [bi for bi, c in _coin_aggs(b)]
+    ok = len(coins) == 1
+    detail = None
+    if ok:
+        conds = [(str(apnf.N(t)), l) for t, l in b.dominating_conditions(coins[0])]
+        opa = "('Allocator::atom', ('Allocator::new',), ('first', ('Allocator::new',), ('.0', ('Allocator::next', ('Allocator::new',), 'var:conds'))))"
+        one = [c for c in conds if c[0] == "('Ne', ('len', %s), 1)" % opa and c[1] == ("bool", False)] + \
+              [c for c in conds if c[0] == "('Eq', ('len', %s), 1)" % opa and c[1] == ("bool", True)]
+        is51 = [c for c in conds if c[0] == "('Eq', ('[]', %s, 0), 51)" % opa and c[1] == ("bool", True)] + \
+               [c for c in conds if c[0] == "('Ne', ('[]', %s, 0), 51)" % opa and c[1] == ("bool", False)]
+        ok = len(one) == 1 and len(is51) == 1
+        detail = [c[0][:110] + " " + str(c[1]) for c in conds if "Allocator::atom" in c[0]]
+    ctx.ob(R, "create-coin-test:SpendBundle::additions", ok,
+           "SpendBundle::additions treats a condition as CREATE_COIN iff its opcode atom is exactly one byte equal to 51", found=detail, where=f.sp)
